@@ -40,8 +40,8 @@ extern "C" __attribute__((no_sanitize("address"))) long syscall(long nr, ...) {
 
 void h_configure(HConfig &cfg) {
   cfg.property = "C10"; cfg.name = "c10_binding";
-  cfg.rule = "case = topology (synthetic or corpus XML, with/without IS_THISSYSTEM, optionally restricted so that complete != topology set) + 14 binding calls over all cpubind/membind entry points x set shapes {subset, topology, complete, empty, outside complete, infinite, full} x flag words (legal + unknown bits) x policies (legal, MIXED, garbage) x BYNODESET; every 8th case is a live round trip on the native topology; non-trivial = a call passed validation with a proper subset, or was rejected for a reason other than an empty set; distinct by hash of the decoded case";
-  cfg.head_len = 500; cfg.op_len = 1; cfg.max_ops = 1; cfg.leak_check = false;
+  cfg.rule = "case = topology (synthetic or corpus XML, with/without IS_THISSYSTEM, optionally restricted so that complete != topology set) + 14 binding calls over all cpubind/membind entry points (set/get for this process, a pid, a thread, an area incl. empty areas, alloc_membind and alloc_membind_policy, last-location and memlocation getters, support bits vs ENOSYS) x set shapes {subset, topology, complete, empty, outside complete, infinite, full} x flag words (legal + unknown bits) x policies (legal, MIXED, garbage) x BYNODESET; every 8th case is a live round trip on the native topology; non-trivial = a call passed validation with a proper subset, or was rejected for a reason other than an empty set; distinct by hash of the decoded case";
+  cfg.head_len = 700; cfg.op_len = 1; cfg.max_ops = 1; cfg.leak_check = false;
 }
 
 static bool mask_equals(const std::vector<unsigned char> &m, hwloc_const_bitmap_t b) { for (unsigned i = 0; i < m.size() * 8; i++) if ((bool)((m[i / 8] >> (i % 8)) & 1) != (hwloc_bitmap_isset(b, i) != 0)) return false; return hwloc_bitmap_weight(b) >= 0 && hwloc_bitmap_last(b) < (int)m.size() * 8; }
@@ -99,24 +99,37 @@ void h_run(Case &c) {
           if (gr == 0) CHECK(c, hwloc_bitmap_isequal(g, expect), "get_after_set", "%s then get returned %s, expected %s", what.c_str(), bstr(g).c_str(), bstr(expect).c_str()); hwloc_bitmap_free(g); } c.cls("cpubind:this-system"); }
       // get-calls: unknown flags rejected; foreign topologies report the whole machine
       { hwloc_bitmap_t g = hwloc_bitmap_alloc(); errno = 0; int gr = hwloc_get_cpubind(t, g, flags); if (badflags) CHECK(c, gr == -1 && errno == EINVAL, "reject_einval", "get_cpubind(flags 0x%x) returned %d errno %d", flags, gr, errno); else if (!this_sys) CHECK(c, gr == 0 && hwloc_bitmap_isequal(g, hwloc_topology_get_complete_cpuset(t)), "foreign_get", "get_cpubind on a foreign topology returned %d with %s, expected the complete set", gr, bstr(g).c_str());
-        errno = 0; gr = hwloc_get_last_cpu_location(t, g, flags); if (badflags) CHECK(c, gr == -1 && errno == EINVAL, "reject_einval", "get_last_cpu_location(flags 0x%x) returned %d errno %d", flags, gr, errno); else if (!this_sys) CHECK(c, gr == 0 && hwloc_bitmap_isequal(g, hwloc_topology_get_complete_cpuset(t)), "foreign_get", "get_last_cpu_location on a foreign topology returned %d with %s", gr, bstr(g).c_str()); hwloc_bitmap_free(g); }
+        errno = 0; gr = hwloc_get_last_cpu_location(t, g, flags); if (badflags) CHECK(c, gr == -1 && errno == EINVAL, "reject_einval", "get_last_cpu_location(flags 0x%x) returned %d errno %d", flags, gr, errno); else if (!this_sys) CHECK(c, gr == 0 && hwloc_bitmap_isequal(g, hwloc_topology_get_complete_cpuset(t)), "foreign_get", "get_last_cpu_location on a foreign topology returned %d with %s", gr, bstr(g).c_str());
+        // the per-process / per-thread getters follow the same rules; a foreign topology never reaches the OS; ENOSYS only without the advertised support
+        const struct hwloc_topology_support *sup = hwloc_topology_get_support(t);
+        for (int ge = 0; ge < 3; ge++) { static const char *gn[] = {"get_proc_cpubind", "get_thread_cpubind", "get_proc_last_cpu_location"}; g_calls.clear(); errno = 0; hwloc_bitmap_zero(g);
+          gr = ge == 0 ? hwloc_get_proc_cpubind(t, getpid(), g, flags) : ge == 1 ? hwloc_get_thread_cpubind(t, pthread_self(), g, flags) : hwloc_get_proc_last_cpu_location(t, getpid(), g, flags); int ge_errno = errno;
+          if (badflags) { CHECK(c, gr == -1 && ge_errno == EINVAL, "reject_einval", "%s(flags 0x%x) returned %d errno %d", gn[ge], flags, gr, ge_errno); CHECK(c, g_calls.empty(), "reject_before_os", "%s(flags 0x%x): %zu system calls for a rejected request", gn[ge], flags, g_calls.size()); }
+          else if (!this_sys) { CHECK(c, gr == 0 && hwloc_bitmap_isequal(g, hwloc_topology_get_complete_cpuset(t)), "foreign_get", "%s on a foreign topology returned %d with %s, expected the complete set", gn[ge], gr, bstr(g).c_str()); CHECK(c, g_calls.empty(), "foreign_no_effect", "%s on a foreign topology reached the OS", gn[ge]); }
+          else { unsigned char bit = ge == 0 ? sup->cpubind->get_proc_cpubind : ge == 1 ? sup->cpubind->get_thread_cpubind : sup->cpubind->get_proc_last_cpu_location; if (bit) CHECK(c, !(gr == -1 && ge_errno == ENOSYS), "enosys_vs_support", "%s returned ENOSYS although the support structure advertises it", gn[ge]); else CHECK(c, gr == -1 && ge_errno == ENOSYS, "enosys_vs_support", "%s is not advertised but returned %d errno %d", gn[ge], gr, ge_errno);
+            if (gr == 0) CHECK(c, !hwloc_bitmap_iszero(g), "get_nonempty", "%s succeeded with an empty set", gn[ge]); } }
+        if (!this_sys) { const struct hwloc_topology_cpubind_support *cs = sup->cpubind; CHECK(c, !cs->set_thisproc_cpubind && !cs->get_thisproc_cpubind && !cs->set_proc_cpubind && !cs->get_proc_cpubind && !cs->set_thisthread_cpubind && !cs->get_thisthread_cpubind && !cs->set_thread_cpubind && !cs->get_thread_cpubind && !cs->get_thisproc_last_cpu_location && !cs->get_proc_last_cpu_location && !cs->get_thisthread_last_cpu_location, "foreign_support", "a foreign topology advertises CPU binding support"); }
+        hwloc_bitmap_free(g); }
     } else {
       int flags = d.chance(1, 5) ? (1 << d.range(0, 9)) : ((d.chance(1, 3) ? HWLOC_MEMBIND_PROCESS : d.chance(1, 2) ? HWLOC_MEMBIND_THREAD : 0) | (d.chance(1, 4) ? HWLOC_MEMBIND_STRICT : 0) | (d.chance(1, 4) ? HWLOC_MEMBIND_MIGRATE : 0) | (d.chance(1, 4) ? HWLOC_MEMBIND_NOCPUBIND : 0)); if (bynode) flags |= HWLOC_MEMBIND_BYNODESET; else flags &= ~HWLOC_MEMBIND_BYNODESET;
       static const int pols[] = {HWLOC_MEMBIND_DEFAULT, HWLOC_MEMBIND_FIRSTTOUCH, HWLOC_MEMBIND_BIND, HWLOC_MEMBIND_INTERLEAVE, HWLOC_MEMBIND_WEIGHTED_INTERLEAVE, HWLOC_MEMBIND_NEXTTOUCH, HWLOC_MEMBIND_MIXED, 6, 77, -2}; int pol = d.pick(pols);
-      bool badflags = flags & ~0x3f, badpol = !(pol >= 0 && pol <= 5); int entry = d.range(0, 3); const char *en[] = {"set_membind", "set_proc_membind", "set_area_membind", "alloc_membind"};
+      bool badflags = flags & ~0x3f, badpol = !(pol >= 0 && pol <= 5); int entry = d.range(0, 4); const char *en[] = {"set_membind", "set_proc_membind", "set_area_membind", "alloc_membind", "alloc_membind_policy"};
       std::string what = strf("%s(%s %s, policy %d, flags 0x%x)", en[entry], shape_name[shape], bstr(set).c_str(), pol, flags); c.attempt(what);
       static char area[8192]; int rc = 0; void *p = NULL; int e;
-      if (entry == 0) rc = hwloc_set_membind(t, set, (hwloc_membind_policy_t)pol, flags); else if (entry == 1) rc = hwloc_set_proc_membind(t, getpid(), set, (hwloc_membind_policy_t)pol, flags); else if (entry == 2) rc = hwloc_set_area_membind(t, area, sizeof area, set, (hwloc_membind_policy_t)pol, flags); else { p = hwloc_alloc_membind(t, 4096, set, (hwloc_membind_policy_t)pol, flags); rc = p ? 0 : -1; } e = errno;
+      if (entry == 0) rc = hwloc_set_membind(t, set, (hwloc_membind_policy_t)pol, flags); else if (entry == 1) rc = hwloc_set_proc_membind(t, getpid(), set, (hwloc_membind_policy_t)pol, flags); else if (entry == 2) rc = hwloc_set_area_membind(t, area, sizeof area, set, (hwloc_membind_policy_t)pol, flags); else if (entry == 3) { p = hwloc_alloc_membind(t, 4096, set, (hwloc_membind_policy_t)pol, flags); rc = p ? 0 : -1; } else { p = hwloc_alloc_membind_policy(t, 4096, set, (hwloc_membind_policy_t)pol, flags); rc = p ? 0 : -1; } e = errno;
       size_t nbind = 0; for (auto &r : g_calls) if (r.nr == SYS_mbind || r.nr == SYS_set_mempolicy || r.nr == SYS_migrate_pages) nbind++;
       bool conv_empty = false;
       // by cpuset, CPUs without any local NUMA node convert to an empty nodeset, which is rejected like an empty set
       if (!bynode && !empty && !outside && !hwloc_bitmap_isincluded(topo, set)) { hwloc_bitmap_t ns = hwloc_bitmap_alloc(); hwloc_cpuset_to_nodeset(t, set, ns); if (hwloc_bitmap_iszero(ns)) { conv_empty = true; c.cls("membind:cpuset-without-local-memory"); } hwloc_bitmap_free(ns); }
       bool rejected = badflags || badpol || empty || outside || conv_empty;
+      if (!rejected && entry == 4 && (flags & HWLOC_MEMBIND_MIGRATE)) {   // alloc_membind refuses MIGRATE, the helper then changes the process policy and allocates: only "a foreign topology never reaches the OS" is asserted
+        if (!this_sys) { CHECK(c, rc == 0, "foreign_set", "%s on a foreign topology returned NULL errno %d", what.c_str(), e); CHECK(c, nbind == 0, "foreign_no_effect", "%s on a foreign topology reached the OS", what.c_str()); }
+        if (p) hwloc_free(t, p, 4096); hwloc_bitmap_free(set); c.cls("membind:alloc-policy-migrate"); continue; }
       if (!rejected && entry == 3 && (flags & HWLOC_MEMBIND_MIGRATE)) {   // nothing to migrate in a fresh allocation: EINVAL, i.e. NULL with STRICT and the fallback allocation otherwise
         CHECK(c, nbind == 0, "reject_before_os", "%s: %zu binding system calls", what.c_str(), nbind); if (flags & HWLOC_MEMBIND_STRICT) CHECK(c, rc == -1 && e == EINVAL, "alloc_migrate", "%s: expected NULL/EINVAL, got %d errno %d", what.c_str(), rc, e); else CHECK(c, rc == 0, "alloc_fallback", "%s: expected the fallback allocation", what.c_str());
         if (p) hwloc_free(t, p, 4096); hwloc_bitmap_free(set); c.cls("membind:alloc-migrate"); continue; }
       if (rejected) { CHECK(c, nbind == 0, "reject_before_os", "%s: %zu binding system calls for a rejected request", what.c_str(), nbind);
-        if (entry == 3) {   // hwloc_alloc_membind falls back to a plain allocation for an unusable set unless STRICT is given (documented, pitfall 9.29);
+        if (entry >= 3) {   // hwloc_alloc_membind falls back to a plain allocation for an unusable set unless STRICT is given (documented, pitfall 9.29);
                             // flags and policy are validated whenever the set was usable or is given as a nodeset
           bool setbad = empty || outside;   // (a cpuset that converts to an empty nodeset is a usable set for this purpose: flags and policy are validated first)
           if ((badflags || badpol) && (bynode || !setbad)) CHECK(c, rc == -1 && e == EINVAL, "reject_einval", "%s: expected NULL/EINVAL, got %s errno %d", what.c_str(), rc ? "NULL" : "memory", e);
@@ -135,6 +148,19 @@ void h_run(Case &c) {
         else if (!this_sys) { // the whole machine: the complete nodeset, or by cpuset the CPUs local to it (between the topology and the complete cpuset)
           if (bynode) CHECK(c, gr == 0 && hwloc_bitmap_isequal(g, hwloc_topology_get_complete_nodeset(t)), "foreign_get", "get_membind(BYNODESET) on a foreign topology returned %d with %s", gr, bstr(g).c_str());
           else { hwloc_bitmap_t whole = hwloc_bitmap_alloc(); hwloc_cpuset_from_nodeset(t, whole, hwloc_topology_get_complete_nodeset(t)); CHECK(c, gr == 0 && hwloc_bitmap_isequal(g, whole), "foreign_get", "get_membind on a foreign topology returned %d with %s, the CPUs local to the complete nodeset are %s", gr, bstr(g).c_str(), bstr(whole).c_str()); hwloc_bitmap_free(whole); } }
+        // the per-process and per-area getters: same flag validation, an empty area cannot be queried for its binding (EINVAL) and has no location (0), a foreign topology reports the whole machine without reaching the OS
+        hwloc_bitmap_t whole = hwloc_bitmap_alloc(); if (bynode) hwloc_bitmap_copy(whole, hwloc_topology_get_complete_nodeset(t)); else hwloc_cpuset_from_nodeset(t, whole, hwloc_topology_get_complete_nodeset(t));
+        for (int ge = 0; ge < 3; ge++) { static const char *gn[] = {"get_proc_membind", "get_area_membind", "get_area_memlocation"}; size_t alen = d.chance(1, 4) ? 0 : sizeof area; g_calls.clear(); errno = 0; hwloc_bitmap_zero(g); gp = (hwloc_membind_policy_t)55;
+          gr = ge == 0 ? hwloc_get_proc_membind(t, getpid(), g, &gp, gflags) : ge == 1 ? hwloc_get_area_membind(t, area, alen, g, &gp, gflags) : hwloc_get_area_memlocation(t, area, alen, g, gflags); int ge_errno = errno; size_t ncalls = g_calls.size();
+          if (badflags) { CHECK(c, gr == -1 && ge_errno == EINVAL, "reject_einval", "%s(flags 0x%x) returned %d errno %d", gn[ge], gflags, gr, ge_errno); CHECK(c, ncalls == 0, "reject_before_os", "%s(flags 0x%x): %zu system calls for a rejected request", gn[ge], gflags, ncalls); }
+          else if (ge == 1 && alen == 0) { CHECK(c, gr == -1 && ge_errno == EINVAL, "empty_area", "get_area_membind of an empty area returned %d errno %d", gr, ge_errno); CHECK(c, ncalls == 0, "reject_before_os", "get_area_membind of an empty area reached the OS"); }
+          else if (ge == 2 && alen == 0) { CHECK(c, gr == 0 && ncalls == 0, "empty_area", "get_area_memlocation of an empty area returned %d errno %d after %zu system calls", gr, ge_errno, ncalls); }
+          else if (!this_sys) { CHECK(c, gr == 0 && hwloc_bitmap_isequal(g, whole), "foreign_get", "%s on a foreign topology returned %d with %s, the whole machine is %s", gn[ge], gr, bstr(g).c_str(), bstr(whole).c_str()); if (ge < 2) CHECK(c, gp == HWLOC_MEMBIND_MIXED, "foreign_get", "%s on a foreign topology reports policy %d", gn[ge], (int)gp); CHECK(c, ncalls == 0, "foreign_no_effect", "%s on a foreign topology reached the OS", gn[ge]); } }
+        hwloc_bitmap_free(whole);
+        // an empty area needs no binding: success without any system call once flags, policy and set are acceptable
+        if (!rejected) { g_calls.clear(); errno = 0; int zr = hwloc_set_area_membind(t, area, 0, set, (hwloc_membind_policy_t)pol, flags); size_t zb = 0; for (auto &r : g_calls) if (r.nr == SYS_mbind || r.nr == SYS_set_mempolicy || r.nr == SYS_migrate_pages) zb++; CHECK(c, zr == 0 && zb == 0, "empty_area", "set_area_membind of an empty area returned %d errno %d after %zu binding calls", zr, errno, zb); }
+        else if (badflags || badpol) { errno = 0; int zr = hwloc_set_area_membind(t, area, 0, set, (hwloc_membind_policy_t)pol, flags); if (bynode || !(empty || outside)) CHECK(c, zr == -1 && errno == EINVAL, "reject_einval", "set_area_membind(empty area, policy %d, flags 0x%x) returned %d errno %d", pol, flags, zr, errno); }
+        if (!this_sys) { const struct hwloc_topology_membind_support *ms = hwloc_topology_get_support(t)->membind; CHECK(c, !ms->set_thisproc_membind && !ms->get_thisproc_membind && !ms->set_proc_membind && !ms->get_proc_membind && !ms->set_thisthread_membind && !ms->get_thisthread_membind && !ms->set_area_membind && !ms->get_area_membind && !ms->alloc_membind && !ms->get_area_memlocation, "foreign_support", "a foreign topology advertises memory binding support"); }
         hwloc_bitmap_free(g); }
     }
     c.descf("\n | %s %s %s", mem ? "membind" : "cpubind", shape_name[shape], bstr(set).substr(0, 60).c_str());
